@@ -224,7 +224,7 @@ PROPS = {
     },
     "C12": {
         "level": "other",
-        "rules": [("BB", 26, None), ("LAW", 6, has(":join", ":meet", ":choose")),
+        "rules": [("BB", 22, None), ("LAW", 6, has(":join", ":meet", ":choose")),
                   ("FS", 2, has("marginal_map_eval", "bb_ub")), ("PM", 3, has("::set:", "::get:", "assignment_iter"))],
         "explanation": "Decides the part of 'returns the optimum and an assignment attaining it' that is in the shape of the three "
                        "sibling searches (marginal_map_h, meu_h, bb_h), their bound functions and drivers, checked identically on "
@@ -264,7 +264,7 @@ PROPS = {
         "rules": [("EE", 2, None), ("IC", 5, has("repr::cnf::")), ("WP", 2, has("repr::cnf::")),
                   ("FS", 3, has("repr::cnf::", "assignment_weight")), ("CN", 2, None),
                   ("PR", 1, has("CnfHasher")), ("LT", 2, has("CnfHasher")),
-                  ("PM", 9, None), ("HS", 5, None), ("LC", 3, has("is_sat_partial", "Cnf::eval", "Cnf::condition"))],
+                  ("PM", 9, None), ("HS", 5, None), ("LC", 2, has("is_sat_partial", "Cnf::eval", "Cnf::condition"))],
         "explanation": "Brute-force counting leaves its enumeration loop only when the assignment iterator is exhausted (EE); "
                        "Cnf's variable count is max label + 1 (IC); the residual hasher's pos/neg tables are selected and "
                        "indexed by the same literal (WP); counting accumulators are seeded with zero/one (FS). Not decided: "
